@@ -3,6 +3,7 @@
 -- `Bardolph.Props.Cxx` so that one property's broken proof does not disturb another's.
 import Bardolph.Driver.All
 import Bardolph.Audit.Tool
+import Bardolph.Props.C02Climb
 import Bardolph.Props.C11
 import Bardolph.Props.C19
 import Bardolph.Props.C20
